@@ -41,12 +41,12 @@ CHECKS = {
    technique="deterministic simulation: seeded schedules, time-outs, latency and buffer pressure over overlay-instrumented real mailboxes; history oracles (FIFO/exactly-once/atomic batches); shrunk replay files",
    ref="6 (C06)"),
  "C07": dict(
-   text="Seeded search over 2-5 archetype contexts sharing 1-4 variables through the real LocalSharedManager (lock time-outs 0-1 s): increment, transfer and unique-value read/write sections in drawn (opposite) orders, failing at drawn positions, pre-empted at every yield and stalled while holding locks. The recorded history of committed sections is checked for strict serializability against a multi-register transaction model with porcupine (outside the simulation), which subsumes lost updates, dirty/non-repeatable reads, effects of aborted sections and conservation; no operation on a shared variable outlives the lock time-out (net of simulator-injected lag), and all contexts must finish within a simulated-time bound (no deadlock, time-outs abort instead of blocking).",
+   text="Seeded search over 2-5 archetype contexts sharing 1-4 variables through the real LocalSharedManager (lock time-outs 0-1 s): increment, transfer and unique-value read/write sections in drawn (opposite) orders, failing at drawn positions, pre-empted at every yield and stalled while holding locks. The recorded history of committed sections is checked for strict serializability against a multi-register transaction model with porcupine (outside the simulation), which subsumes lost updates, dirty/non-repeatable reads, effects of aborted sections and conservation; mutual exclusion between a section that has accessed a variable and every other context holds until that section's body returns, handles are wrapped in Persistent in a third of the runs, no operation on a shared variable outlives the lock time-out (net of simulator-injected lag), and all contexts must finish within a simulated-time bound (no deadlock, time-outs abort instead of blocking).",
    note="Trusted: overlay instrumentation; porcupine; histories <= 25 sections; porcupine time-outs counted as inconclusive.",
    technique="deterministic simulation: seeded goroutine schedules and stalls over the real lock manager; porcupine strict-serializability check of the recorded history; bounded-progress verdict; shrunk replay files",
    ref="6 (C07)"),
  "C13": dict(
-   text="Seeded search over 2-4 nodes each owning the real NewCRDT resource (broadcaster ticker, merger, net/rpc receiver over a simulated network) with archetypes that write distinct power-of-two increments per attempt, hold sections open across broadcast ticks and incoming merges, commit, abort, or abandon the write after aborting; merge-queue capacity 100 or (a third of the runs) 1-2; schedules interleave ticks, ReceiveValue calls, merges, writes, commits and aborts. On every read: no update of an aborted attempt, no update of a section still in flight elsewhere, nothing previously read missing; after updates stop every node reads every committed update that was issued while it was reachable, and nothing uncommitted, within 20 broadcast intervals + 2 send time-outs + 1 s.",
+   text="Seeded search over 2-4 nodes each owning the real NewCRDT resource (broadcaster ticker, merger, net/rpc receiver over a simulated network) with archetypes that write distinct power-of-two increments per attempt, hold sections open across broadcast ticks and incoming merges, commit, abort, or abandon the write after aborting; merge-queue capacity 100 or (a third of the runs) 1-2; in some four-node runs two replicas go silent for good and the other two must keep converging; schedules interleave ticks, ReceiveValue calls, merges, writes, commits and aborts. On every read: no update of an aborted attempt, no update of a section still in flight elsewhere, nothing previously read missing; after updates stop every node reads every committed update that was issued while it was reachable, and nothing uncommitted, within 20 broadcast intervals + 2 send time-outs + 1 s.",
    note="Trusted: overlay instrumentation; GCounter with power-of-two increments as the attributable CRDT value; no resets/partitions injected (property speaks of connected peers); delivery is only required to peers listening before the update's section started.",
    technique="deterministic simulation: seeded schedules over the overlay-instrumented CRDT resource and net/rpc on a simulated network; per-read attribution oracles and bounded-convergence verdict; shrunk replay files",
    ref="6 (C13)"),
